@@ -303,6 +303,45 @@ theorem equilibrium_equation_spec (ctx : Ctx ℝ) (v : Val ℝ) (K : ℝ) (prod 
     rw [← hl, eqExponents, List.map_append, List.prod_append, List.map_map]
     rfl
 
+/-! ## closed formulas of the other rate / equilibrium expression classes (stored numeric arguments, no unique keys) -/
+
+/-- `EyringHS([dH, dS, c0])` evaluates to the DOCUMENTED `(kB·T/h)·exp(dS/R)·exp(−dH/(R·T))·c0^(1−order)` (the code computes the single
+exponential `exp(−(dH − T·dS)/(R·T))`), for `T, R, h ≠ 0`, `c0 > 0`. -/
+theorem eyringHS_spec (ctx : Ctx ℝ) (dH dS c0 T R kB h : ℝ) (reac : List (String × ℤ))
+    (hT : ctx.vars "temperature" = some T) (hR : ctx.vars "molar_gas_constant" = some R)
+    (hkB : ctx.vars "Boltzmann_constant" = some kB) (hh : ctx.vars "Planck_constant" = some h)
+    (hT0 : T ≠ 0) (hR0 : R ≠ 0) (hh0 : h ≠ 0) (hc0 : 0 < c0) (hr : ctx.rxn = .some reac) :
+    eval ctx (.node .eyringHS false [.num dH, .num dS, .num c0] none)
+      = .ok (kB * T / h * Real.exp (dS / R) * Real.exp (-dH / (R * T)) * c0 ^ (1 - order reac)) :=
+  eval_eyringHS_node ctx dH dS c0 T R kB h reac hT hR hkB hh hT0 hR0 hh0 hc0 hr
+
+/-- `mk_Radiolytic(n₀, n₁, …)([g₀, g₁, …])` evaluates to `density · Σᵢ doserate_{nᵢ} · gᵢ`: each yield with the dose rate of the
+SAME position / name (any number ≥ 1 of dose rates, any order of names). -/
+theorem radiolytic_spec (ctx : Ctx ℝ) (n0 : String) (names : List String) (g0 : ℝ) (gs : List ℝ) (rho : ℝ) (d : String → ℝ)
+    (hn : names.length = gs.length) (hrho : ctx.vars "density" = some rho)
+    (hd : ∀ k ∈ (n0 :: names).map (fun n => "doserate" ++ radSuffix n), ctx.vars k = some (d k)) :
+    eval ctx (.node (.radiolytic (n0 :: names)) false ((g0 :: gs).map Val.num) none)
+      = .ok (rho * (List.zipWith (fun k g => d k * g) ((n0 :: names).map (fun n => "doserate" ++ radSuffix n)) (g0 :: gs)).sum) :=
+  eval_radiolytic_node ctx names g0 gs rho d n0 hn hrho hd
+
+/-- `GibbsEqConst([dH/R, dS/R])` = `exp(dS/R − (dH/R)/T)`, `T ≠ 0`; `MassActionEq([K])` = `K`. -/
+theorem gibbs_spec (ctx : Ctx ℝ) (dHR dSR T K : ℝ) (hT : ctx.vars "temperature" = some T) (hT0 : T ≠ 0) :
+    eval ctx (.node .gibbsEqConst false [.num dHR, .num dSR] none) = .ok (Real.exp (dSR - dHR / T))
+    ∧ eval ctx (.node .massActionEq false [.num K] none) = .ok K :=
+  ⟨eval_gibbs_node ctx dHR dSR T hT hT0, eval_massActionEq_node ctx K⟩
+
+/-- `RampedTemp([T0, dTdt])` = `T0 + dTdt·t` and `SinTemp([Tbase, Tamp, ω, φ])` = `Tbase + Tamp·sin(ω·t + φ)` at `t = variables['time']`. -/
+theorem temperature_programs_spec (ctx : Ctx ℝ) (T0 dTdt Tb Ta w ph t : ℝ) (ht : ctx.vars "time" = some t) :
+    eval ctx (.node .rampedTemp false [.num T0, .num dTdt] none) = .ok (T0 + dTdt * t)
+    ∧ eval ctx (.node .sinTemp false [.num Tb, .num Ta, .num w, .num ph] none) = .ok (Tb + Ta * Real.sin (w * t + ph)) :=
+  ⟨eval_rampedTemp_node ctx T0 dTdt t ht, eval_sinTemp_node ctx Tb Ta w ph t ht⟩
+
+/-- `Exp([e])` = `exp(value of e)`; `Log10([e])` = `log₁₀(value of e)` for a positive value (`math.log10` raises otherwise). -/
+theorem exp_log10_spec (ctx : Ctx ℝ) (v : Val ℝ) (a : ℝ) (hv : eval ctx v = .ok a) :
+    eval ctx (.node .exp false [v] none) = .ok (Real.exp a)
+    ∧ (0 < a → eval ctx (.node .log10 false [v] none) = .ok (Real.log a / Real.log 10)) :=
+  ⟨eval_exp_node ctx v a hv, eval_log10_node ctx v a hv⟩
+
 /-! ## backends -/
 
 /-- `backend_naturality`.  For every map `φ` between two number structures that commutes with `+ − · / neg`, integer
@@ -315,7 +354,10 @@ theorem backend_naturality {α β : Type} [Add α] [Sub α] [Mul α] [Div α] [N
     eval (ctx.map φ) (v.map φ) = (eval ctx v).map φ :=
   eval_nat h ctx v
 
-/-- `symbolic_then_substituted` — the clause "evaluated symbolically and then substituted".  `Sym` is the free term algebra
+/-- `symbolic_then_substituted` — the clause "evaluated symbolically and then substituted".  ASSUMPTION (not tied to sympy by any
+correspondence run: `Sym` is noncomputable): sympy is idealised as a free term algebra whose automatic rewriting (`x - x → 0`,
+`x**0 → 1`, …) is value-preserving wherever the numeric evaluation succeeds; the real sympy backend is compared by the oracle only.
+`Sym` is the free term algebra
 the sympy backend builds (variables, numbers, `+ − · / neg`, `**`, `exp`, `log10`, `sin`; evaluation with symbolic values never
 raises and `==` / `<=` on symbols decide nothing), `substEval σ` substitutes numbers for the variables.  For EVERY expression
 tree `v` without a Piecewise instance (its `lo <= x <= up` tests have no truth value on symbols: sympy builds a `Piecewise` of
@@ -372,10 +414,6 @@ theorem default_index_wraparound_witness :
 
 /-! ## the hypotheses are satisfiable -/
 
-/-- a backend homomorphism exists (`math` ↔ `numpy`: the identity on ℝ) -/
-example : BackendHom (id : ℝ → ℝ) :=
-  ⟨fun _ _ => rfl, fun _ _ => rfl, fun _ _ => rfl, fun _ _ => rfl, fun _ => rfl, fun _ => rfl, fun _ => rfl⟩
-
 /-- a NON-identity homomorphism in the sense of `backend_naturality`: substitute-then-evaluate from symbolic terms to the
 exception-free reals (every field by computation) -/
 example (σ : String → ℝ) : PyHom (fun t : Sym => (⟨substEval σ t⟩ : RTot)) := substEval_hom σ
@@ -403,8 +441,8 @@ example : PyHom (id : ℝ → ℝ) where
 
 /-- a build program with a short-cut: `(x + 0) * 1` builds the bare `Symbol` and means `x` -/
 example : (Prog.mul (.add (.sym "x") (.raw 0)) (.raw 1)).build = .ok (symbolNode "x") := by
-  simp [Prog.build, pyAdd, pyMul, exprAdd, exprMul, conv, trivZero, constNode, symbolNode, Val.isNode, Val.isMassAction,
-    isOne, PyNum.isScalar]
+  simp [Prog.build, pyAdd, pyMul, exprAdd, exprMul, conv, trivZero, constErr, constNode, symbolNode, Val.isNode,
+    Val.isMassAction, isOne, PyNum.isScalar]
 
 /-- a context as required by `as_rate_expr_spec_*`: `2 A + B → …` at 300 K -/
 example : ∃ (ctx : Ctx ℝ) (reac : List (String × ℤ)) (c : String → ℝ),
@@ -419,7 +457,7 @@ example : ∃ (ctx : Ctx ℝ) (reac : List (String × ℤ)) (c : String → ℝ)
 
 /-- operands of the shape required by `operators_are_homomorphic`, with a short-cut taken: `x + 0*y` is `x` -/
 example : pyAdd (symbolNode "x" : Val ℝ) (.node .mul false [symbolNode "y", constNode 0] none) = .ok (symbolNode "x") := by
-  simp [pyAdd, Val.isNode, symbolNode, exprAdd, conv, trivZero, constNode]
+  simp [pyAdd, Val.isNode, symbolNode, exprAdd, conv, trivZero, constErr, constNode]
 
 /-! ## guards: the code the hand-written bodies of `Model/Expr.lean` mirror (regenerated NORMALISED text vs. approved text;
 robust against renaming of locals, single-use temporaries, else-after-return, docstrings, layout) -/
@@ -519,5 +557,104 @@ theorem constantCall_guard : Gen.srcConstantCall =
 /-- `Symbol.__call__` (chempy/util/_expr.py) is — up to the normalisation of tools/extract/ratessrc.py — the code the hand model was written from -/
 theorem symbolCall_guard : Gen.srcSymbolCall =
     "def(self, variables, backend=None, **kwargs): v0, = self.unique_keys; return variables[v0]" := rfl
+
+/-! ## signature records of the translated functions (defaults, decorators, how the backend is obtained, which attributes are called).
+The `@skipped` hash (code the plain-number specialisation does not visit: the units / constants branches) is NOT pinned: it changes under
+harmless refactorings (benign/R16); those branches are covered by the units × backends oracle only. -/
+
+theorem getRSig_guard : (Gen.getRSig.filter fun p => p.1 != "@skipped") =
+  [("constants", "None"),
+   ("units", "None"),
+   ("@decorators", ""),
+   ("@args", ""),
+   ("@fixed", ""),
+   ("@objects", ""),
+   ("@warn", ""),
+   ("@backend", "")] := by decide
+
+theorem getKBOverHSig_guard : (Gen.getKBOverHSig.filter fun p => p.1 != "@skipped") =
+  [("constants", "None"),
+   ("units", "None"),
+   ("@decorators", ""),
+   ("@args", ""),
+   ("@fixed", ""),
+   ("@objects", ""),
+   ("@warn", ""),
+   ("@backend", "")] := by decide
+
+theorem arrheniusEquationSig_guard : (Gen.arrheniusEquationSig.filter fun p => p.1 != "@skipped") =
+  [("A", "<required>"),
+   ("Ea", "<required>"),
+   ("T", "<required>"),
+   ("constants", "None"),
+   ("units", "None"),
+   ("backend", "None"),
+   ("@decorators", ""),
+   ("@args", "A Ea T"),
+   ("@fixed", ""),
+   ("@objects", ""),
+   ("@warn", ""),
+   ("@backend", "get_backend(backend) ; be = get_backend(backend) ; be.exp")] := by decide
+
+theorem eyringEquationSig_guard : (Gen.eyringEquationSig.filter fun p => p.1 != "@skipped") =
+  [("dH", "<required>"),
+   ("dS", "<required>"),
+   ("T", "<required>"),
+   ("constants", "None"),
+   ("units", "None"),
+   ("backend", "None"),
+   ("@decorators", ""),
+   ("@args", "dH dS T"),
+   ("@fixed", ""),
+   ("@objects", ""),
+   ("@warn", ""),
+   ("@backend", "get_backend(backend) ; be = get_backend(backend) ; be.exp")] := by decide
+
+theorem arrheniusFromRateconstASig_guard : (Gen.arrheniusFromRateconstASig.filter fun p => p.1 != "@skipped") =
+  [("Ea", "<required>"),
+   ("T", "<required>"),
+   ("k", "<required>"),
+   ("@decorators", ""),
+   ("@args", "Ea T k"),
+   ("@fixed", ""),
+   ("@objects", ""),
+   ("@warn", ""),
+   ("@backend", "backend.exp")] := by decide
+
+theorem arrheniusEaOverRSig_guard : (Gen.arrheniusEaOverRSig.filter fun p => p.1 != "@skipped") =
+  [("self", "<required>"),
+   ("constants", "<required>"),
+   ("units", "<required>"),
+   ("backend", "None"),
+   ("@decorators", ""),
+   ("@args", "self_Ea"),
+   ("@fixed", "constants=None, units=None"),
+   ("@objects", "self"),
+   ("@warn", ""),
+   ("@backend", "")] := by decide
+
+theorem eyringKBhExpDSRSig_guard : (Gen.eyringKBhExpDSRSig.filter fun p => p.1 != "@skipped") =
+  [("self", "<required>"),
+   ("constants", "None"),
+   ("units", "None"),
+   ("backend", "math"),
+   ("@decorators", ""),
+   ("@args", "self_dS"),
+   ("@fixed", "constants=None, units=None"),
+   ("@objects", "self"),
+   ("@warn", ""),
+   ("@backend", "backend.exp")] := by decide
+
+theorem eyringDHOverRSig_guard : (Gen.eyringDHOverRSig.filter fun p => p.1 != "@skipped") =
+  [("self", "<required>"),
+   ("constants", "None"),
+   ("units", "None"),
+   ("backend", "None"),
+   ("@decorators", ""),
+   ("@args", "self_dH"),
+   ("@fixed", "constants=None, units=None"),
+   ("@objects", "self"),
+   ("@warn", ""),
+   ("@backend", "")] := by decide
 
 end ChemModel.C16
